@@ -140,6 +140,7 @@ def gen_case(fmt):
             named = named + [".bzr"]
         return {"fmt": fmt, "layout": sorted(lay.items()),
                 "nested": nested, "patterns": pats, "user": upats,
+                "nested_other": bool(nested) and draw(st.booleans()),
                 "conflicts": conflicts, "versioned": pre, "named": named,
                 "recurse": draw(st.integers(0, 9)) < 8,
                 # the add action: the default one, an explicit AddAction, or
@@ -314,8 +315,13 @@ def materialize(case, root):
         # the nested tree is built next to the tree and its control directory
         # moved in (creating it in place would look for the containing tree)
         side = root + ".nested"
-        bz.init_tree(side, fmt)
-        ctl = ".git" if fmt == "git" else ".bzr"
+        nfmt = fmt
+        if case.get("nested_other"):
+            # a nested tree of the other family (bzr tree inside a git tree
+            # and the reverse) is a nested tree all the same
+            nfmt = "2a" if fmt == "git" else "git"
+        bz.init_tree(side, nfmt)
+        ctl = ".git" if nfmt == "git" else ".bzr"
         os.rename(os.path.join(side, ctl), os.path.join(root, n, ctl))
         os.rmdir(side)
     if case["patterns"]:
